@@ -299,6 +299,10 @@ func init() {
 			return done(e.C.BVConst(64, uint64(e.netClosed)))
 		},
 		"verifNative": func(e *Exec, t *Thread, a []Value, g bool) (Value, bool) { return done(e.C.False) },
+		"verifUnsupported": func(e *Exec, t *Thread, a []Value, g bool) (Value, bool) {
+			e.unsupported("harness: %s", e.strArg(a[0]))
+			return done(nil)
+		},
 		"verifFail": func(e *Exec, t *Thread, a []Value, g bool) (Value, bool) {
 			panic(pathEnd{kind: "assert", detail: e.strArg(a[0]), site: e.callerPos(t)})
 		},
